@@ -173,7 +173,8 @@ def report(pid, tier, seed, mod, results, wall):
         h = hashlib.sha1(json.dumps(body['case'], sort_keys=True).encode()).hexdigest()[:10]
         d = os.path.join(OUT, 'replays', pid)
         os.makedirs(d, exist_ok=True)
-        p = os.path.join(d, '%s-%s.json' % (v['facet'].replace('/', '_'), h))
+        import re as _re
+        p = os.path.join(d, '%s-%s.json' % (_re.sub(r'[^A-Za-z0-9_.-]', '_', v['facet']), h))
         with open(p, 'w') as fh:
             json.dump(body, fh, indent=1, sort_keys=True)
         replay_paths.append(p)
